@@ -17,7 +17,7 @@ func init() {
 		ID: "C07", Level: "exploration", PanicClause: "C07.panic",
 		Cases: func(tier string) int {
 			if tier == "quick" {
-				return 12000
+				return 24000
 			}
 			return 900000
 		},
